@@ -607,6 +607,41 @@ fn c04(ctx: &CaseCtx, obs: &CaseObs, l: &mut Local) {
     if let Some(r) = &obs.tp_check {
         cmp("TypedParser::try_check", r.class(), None, l);
     }
+    // sub-input forms: the same rule inside the window (trailing skip and end of input are the window's)
+    for (form, fo, parent, lo, hi) in [
+        ("Position", &obs.pos, format!("{}{}", ctx.case.pre, s), ctx.case.pre.len(), ctx.case.pre.len() + s.len()),
+        ("Span", &obs.span, format!("{}{}{}", ctx.case.pre, s, ctx.case.post), ctx.case.pre.len(), ctx.case.pre.len() + s.len()),
+    ] {
+        let fo = match fo {
+            Some(f) => f,
+            None => continue,
+        };
+        let fpe = match typed_end(&fo.parse_partial) {
+            Some(x) => x,
+            None => continue,
+        };
+        let want = match fpe {
+            Some(e) => {
+                let after = if atomic_entry { e } else { refpeg::interp::skip_only(&ctx.model.opt, &parent, lo, hi, e) };
+                after == hi
+            }
+            None => false,
+        };
+        l.count("sub_input_full_parses_checked");
+        for (api, class) in [("try_parse", fo.parse.class()), ("try_check", fo.check.class())] {
+            if class == "panic" || class == "skipped" {
+                continue;
+            }
+            if (class == "ok") != want {
+                let sig = if class == "ok" { "unclassified/C04/success-with-unread-input-or-no-prefix" } else { "unclassified/C04/rejects-fully-consumed-input" };
+                l.violation(
+                    sig,
+                    format!("{} on {} is {} but the prefix parse ends at {:?} of the window {}..{}", api, form, class, fpe, lo, hi),
+                    ctx.witness(json!({"api": api, "form": form, "observed": class, "prefix_end": format!("{:?}", fpe), "window": [lo, hi]})),
+                );
+            }
+        }
+    }
     if let Some(r) = &obs.string_parse_partial {
         // &String is the same input form as &str
         match (r, pe) {
@@ -1142,6 +1177,15 @@ fn c11(ctx: &CaseCtx, obs: &CaseObs, full: &Outcome, l: &mut Local) {
     over("try_check", obs.s.check.panicked(), l);
     for w in [&obs.with_parse, &obs.with_check].into_iter().flatten() {
         over("try_*_partial_with", w.panicked.as_ref().map(|(a, b)| (a.as_str(), b.as_str())), l);
+    }
+    // the sub-input forms parse the same window, so the same budget applies
+    for (form, f) in [("Position", &obs.pos), ("Span", &obs.span)] {
+        if let Some(f) = f {
+            over(&format!("try_parse_partial({})", form), f.parse_partial.panicked(), l);
+            over(&format!("try_check_partial({})", form), f.check_partial.panicked(), l);
+            over(&format!("try_parse({})", form), f.parse.panicked(), l);
+            over(&format!("try_check({})", form), f.check.panicked(), l);
+        }
     }
 }
 
